@@ -429,6 +429,26 @@ def gen_scenario(rng, ops=None, force=None):
         if op in ("whits", "whitswcv") and dtype.startswith("float") and rng.random() < 0.25:
             data[nprng.random(data.shape) < 0.05] = np.nan
 
+    # degenerate pixels (early-exit branches of the kernels): all zero, constant, mostly zero, one spike
+    if op not in ("dekad",) and rng.random() < 0.4:
+        for _ in range(rng.randint(1, 2)):
+            py, px = rng.randrange(Y), rng.randrange(X)
+            sp = rng.choice(["zeros", "const", "mostly-zero", "spike", "ones"])
+            if sp == "zeros":
+                data[:, py, px] = 0
+            elif sp == "ones":
+                data[:, py, px] = 1
+            elif sp == "const":
+                data[:, py, px] = data[rng.randrange(T), py, px]
+            elif sp == "mostly-zero":
+                keep = rng.randrange(T)
+                v = data[keep, py, px]
+                data[:, py, px] = 0
+                data[keep, py, px] = v
+            else:
+                data[:, py, px] = 0
+                data[rng.randrange(T), py, px] = 1000 if np.dtype(dtype).itemsize > 1 else 1
+        pattern = pattern + "+special"
     tstart = rng.randrange(0, 72)
     chunks = {"y": composition(rng, Y), "x": composition(rng, X)}
     scn = {
@@ -554,8 +574,7 @@ def apply_op(scn, cube, lazy, perm=None, aux=None):
     nodata = scn["nodata"]
     if aux is None:
         aux = build_aux(scn, lazy, perm)
-    with warnings.catch_warnings():
-        warnings.simplefilter("ignore")
+    if True:  # warnings are silenced process-wide (catch_warnings is not thread-safe)
         if op == "whits":
             kw = {"nodata": nodata, "p": p["p"]}
             if "s" in p:
